@@ -232,6 +232,35 @@ def make_scaling_harness(n: int, admittance: bool):
     return harness
 
 
+def make_smooth_harness(smoothing: str, num_points: int, order: int, n: int):
+    """the pure-Python smoothing filters leave linear data a + b*i unchanged (up to 1e-9 relative, which absorbs the rounding of
+    the concrete kernel coefficients); the filters are linear, so the box |a|,|b| <= 1 covers every line by homogeneity"""
+    def harness(eng):
+        import pyimpspec.analysis.zhit.smoothing as sm
+        eng.symbolic_pi = False          # the kernels are concrete numbers: pi is the double, not the symbolic constant
+        a = eng.real("a", npy=True)
+        b = eng.real("b", npy=True)
+        for v in (a, b):
+            eng.assume(v >= -1)
+            eng.assume(v <= 1)
+        data = [a + b * i for i in range(n)]
+        lnw = [float(n - i) for i in range(n)]
+        ok, out = call(sm._smooth_phase, smoothing, num_points, order, 3, mk_array(eng, lnw), mk_array(eng, data))
+        eng.check(ok, "smoothing:completes", lambda: "%r" % (out,))
+        if not ok:
+            return
+        tol = 1e-9 * (1 + n)
+        out = list(out.flat) if hasattr(out, "flat") else list(out)
+        eng.check(len(out) == n, "smoothing:one value per point")
+        for i in range(min(n, len(out))):
+            d = out[i] - data[i]
+            eng.check((d <= tol) if not is_symbolic(d) else bool((d <= tol) & (d >= -tol)), "smoothing:linear (and constant) data are left unchanged",
+                      lambda: "point %d: %r vs %r" % (i, out[i], data[i])) if is_symbolic(d) else eng.check(abs(d) <= tol, "smoothing:linear (and constant) data are left unchanged",
+                                                                                                        lambda: "point %d: %r vs %r" % (i, out[i], data[i]))
+        eng.reached("smoothing")
+    return harness
+
+
 def obligations(tier: str):
     from sx.runner import Obligation
     import pyimpspec.analysis.zhit.reconstruction as zr
@@ -251,6 +280,18 @@ def obligations(tier: str):
                               functions=[zo._adjust_offset], stubs=stubs, expect_reach=["non-vacuous"], mode="fresh", query_timeout_ms=60000))
     obs.append(Obligation("weights", make_weights_harness(n), bounds="%d points; each weight zero / positive / negative" % n,
                           functions=[zo._offset_residual, zo._calculate_modulus_offset], stubs=stubs, expect_reach=["weights"]))
+    import pyimpspec.analysis.zhit.smoothing as sm
+    import pyimpspec.analysis.zhit.smoothing.modified_sinc as ms
+    import pyimpspec.analysis.zhit.smoothing.whittaker_henderson as wh
+    combos = ((3, 2), (5, 2), (5, 4)) if tier == "quick" else ((3, 2), (5, 2), (5, 4), (7, 2), (7, 4), (9, 6))
+    for smoothing in ("modsinc", "whithend"):
+        for npts, order in combos:
+            nn = 9 if tier == "quick" else 14
+            obs.append(Obligation("smooth.%s.%d.%d" % (smoothing, npts, order), make_smooth_harness(smoothing, npts, order, nn),
+                                  bounds="%s smoothing, num_points=%d, polynomial_order=%d, %d points a + b*i with symbolic a, b in [-1, 1]" % (smoothing, npts, order, nn),
+                                  functions=[sm._smooth_phase, ms._smooth, ms._extend_data, ms._smooth_except_boundaries, ms.LinearRegression.calculate, wh._smooth, wh._solve],
+                                  stubs=["kernel coefficients are the concrete floats the code computes (read as exact rationals); tolerance 1e-9 relative"],
+                                  expect_reach=["smoothing"], mode="fresh"))
     for o in obs:
         o.replay = o.harness
     return obs
@@ -261,7 +302,7 @@ EXPLANATION = (
     "variables; quadrature and splines are exact stubs of a given phase function, the offset minimiser is replaced by the weighted least-squares offset."
 )
 ASSUMPTIONS = ["quad of an exactly known integrand returns the exact integral", "lmfit.minimize returns the weighted least-squares offset", "floats as reals"]
-OUTSIDE = ["the smoothing kernels (modified sinc, Whittaker-Henderson, Savitzky-Golay, LOWESS) and that they leave constant/linear data unchanged",
+OUTSIDE = ["the Savitzky-Golay (scipy) and LOWESS (statsmodels) smoothers; what the modified-sinc and Whittaker-Henderson filters do to data that are not linear",
            "_generate_weights (scipy Akima on window functions)", "real splines and quadrature; the 'few percent' clause for RC/RQ ladders"]
 
 
